@@ -177,7 +177,7 @@ def x_timedelta(interp, args, kwargs, node):
         t = sym.as_real_term(days)
         interp.world.trusted.add('A-CAL: the time of day of a datetime does not affect its year/month/day '
                                  '(fractional timedelta days are floored for the date part)')
-        return STimedelta(z3.ToInt(t))
+        return STimedelta(sym.floor_int(interp.ex, t))
     return STimedelta(as_int_term(days))
 
 
